@@ -255,7 +255,33 @@ func ReturnValue(r *ssa.Return, i int) ssa.Value {
 	if i >= len(r.Results) {
 		return nil
 	}
-	return Strip(r.Results[i])
+	v := Strip(r.Results[i])
+	u, ok := v.(*ssa.UnOp)
+	if !ok || u.Op != token.MUL {
+		return v
+	}
+	al, ok := u.X.(*ssa.Alloc)
+	if !ok {
+		return v
+	}
+	// functions with defers return through spilled locals: `*t = x; rundefers; return *t`.
+	// Find the store that reaches this return: walk back through the block and its
+	// chain of unique predecessors.
+	b := r.Block()
+	idx := len(b.Instrs)
+	for hops := 0; hops < 32; hops++ {
+		for j := idx - 1; j >= 0; j-- {
+			if st, ok := b.Instrs[j].(*ssa.Store); ok && st.Addr == ssa.Value(al) {
+				return Strip(st.Val)
+			}
+		}
+		if len(b.Preds) != 1 {
+			return v
+		}
+		b = b.Preds[0]
+		idx = len(b.Instrs)
+	}
+	return v
 }
 
 // IsCallInstr adapts a CallInfo predicate to an instruction predicate.
